@@ -11,7 +11,7 @@
 (* zero is <<0, <<>>>> (canonical, so equality of values is `=').          *)
 (*                                                                         *)
 (* Every operator below has a complete TLA+ definition.  For throughput    *)
-(* TLC may replace WAdd WSub WMul WCmp WDiv WISqrt WGcd by the Java        *)
+(* TLC may replace WAdd WSub WMul WCmp WDiv WISqrt WGcd WFromInt by Java        *)
 (* module override Wide.class (java.math.BigInteger on the same            *)
 (* representation); WideTest.tla checks the definitions against reference  *)
 (* vectors with and without the override.                                  *)
